@@ -19,17 +19,43 @@ class Acc:
     def count(self, k, n=1):
         self.counts[k] = self.counts.get(k, 0) + n
 
+    config_cap = None  # executions one configuration may spend
+    budget = None  # executions this shard may spend in choice-point exploration (None = unlimited)
+    spent = 0
+
+    def explore(self, run, **kw):
+        """choice-point exploration under the shard's execution budget.  On the code as it stands the budget is several
+        times what is needed; it only guarantees termination when a change of the code under test multiplies the number
+        of choice points.  Capped or skipped configurations are counted and make the run non-exhaustive."""
+        from . import choice as CH
+
+        cap = None if self.budget is None else self.budget - self.spent
+        if cap is not None and cap <= 0:
+            self.count("configurations-skipped-budget-exhausted")
+            return
+        if self.config_cap is not None:
+            cap = self.config_cap if cap is None else min(cap, self.config_cap)
+        stats = {}
+        for item in CH.explore(run, max_exec=cap, stats=stats, **kw):
+            self.spent += 1
+            yield item
+        if stats.get("capped"):
+            self.count("configurations-capped-by-budget")
+
     def pack(self):
         return (self.violations, self.counts, self.evaluations, self.nontrivial, self.outcomes)
 
 
-def run_e4(ctx, items, worker, nchunks=None, quiet=True):
+def run_e4(ctx, items, worker, nchunks=None, quiet=True, budget=None, config_cap=None):
     """worker(list_of_items, Acc) -> None.  Returns merged (evaluations, nontrivial_set, outcomes_set)."""
     items = list(items)
     parts = chunks(items, nchunks or max(1, ctx.jobs * 6))
 
     def f(part):
         acc = Acc()
+        if budget is not None:
+            acc.budget = max(1, budget // len(parts))
+        acc.config_cap = config_cap
         warnings.simplefilter("ignore")
         import logging
 
